@@ -1,7 +1,7 @@
 """C06 (normalisation preserves acceptance) and C16 (normal form shape, termination): stream N."""
 import random, json, copy, signal
 import fences_env
-from common import Check, run_driver
+from common import Check, run_driver, json_corpus
 import jsonschemas as J, graphs
 
 fences_env.load()
@@ -300,12 +300,12 @@ def classify_c06(doc, x, full):
     return ("full" if full else "reduced") + ":" + "+".join(tags)
 
 
-def oracle_c06(doc, full, rng):
+def oracle_c06(doc, full, rng, first=()):
     nf, err = run_normalize(doc, full, False)
     if err:
         return []
     res = []
-    for x in J.instance_grid(doc, rng):
+    for x in list(first) + list(J.instance_grid(doc, rng)):
         try:
             a = J.accepts(doc, x)
             b = J.accepts(nf, x)
@@ -387,7 +387,14 @@ def run(pid, tier):
     rng = random.Random(ck.seed * 577 + 13)
     n = 420 if tier == "quick" else 5000
     docs = []
-    hist = {"raises_library_exception": 0, "with_ref": 0, "with_not_if_oneOf": 0, "in_c06_scope": 0, "recursive": 0,
+    corpus_instances = {}
+    for e in json_corpus(pid):
+        if isinstance(e["schema"], bool) or J.metaschema_ok(e["schema"]):
+            docs.append(e["schema"])
+            if "instance" in e:
+                corpus_instances[json.dumps(e["schema"], sort_keys=True)] = [e["instance"]]
+    n += len(docs)
+    hist = {"corpus_documents": len(docs), "raises_library_exception": 0, "with_ref": 0, "with_not_if_oneOf": 0, "in_c06_scope": 0, "recursive": 0,
             "random_documents": 0, "conjunctions_of_one_keyword_group": 0, "recursion_through_not_or_if": 0, "self_conjunction": 0, "diverges": 0}
     while len(docs) < n:
         m = rng.random()
@@ -485,7 +492,7 @@ def run(pid, tier):
             if pid == "C06":
                 if in_c06_scope(d):
                     hist["in_c06_scope"] += 1
-                    for sig, what, x in oracle_c06(d, full, orc):
+                    for sig, what, x in oracle_c06(d, full, orc, corpus_instances.get(json.dumps(d, sort_keys=True), ())):
                         small = d
                         if len(ck.violations) < 4:
                             small = shrink_doc(d, lambda c: any(s.split(":")[0] == sig.split(":")[0] for s, _, _ in oracle_c06(c, full, random.Random(1))))
